@@ -1235,3 +1235,34 @@ Theorem where_pins_sound_with_free_text : forall w k d r (free_text : tri),
 Proof.
   intros w k d r x Hp H. apply tri_and_tt in H. destruct H as [H _]. eapply where_pins_sound; eauto.
 Qed.
+
+(** * A violation of the shard limit is rejected whatever the dynamic limit is and whatever its callback says *)
+Lemma shard_violation_rejected : forall shard dyn cb cont t c o,
+  op_wfb (mk_handle (Some shard) dyn cb cont) t o = true ->
+  ~ Forall (event_confined t shard) (fst (run no_limits t c o)) ->
+  snd (run (mk_handle (Some shard) dyn cb cont) t c o) <> Proceeds
+  /\ (single_statement o -> fst (run (mk_handle (Some shard) dyn cb cont) t c o) = [])
+  /\ ~ In ECommit (fst (run (mk_handle (Some shard) dyn cb cont) t c o)).
+Proof.
+  intros shard dyn cb cont t c o Hwf Hbad. apply (c12_noncomplying_b _ t c o shard Hwf); [|exact Hbad].
+  unfold enforced_limits. simpl. left. reflexivity.
+Qed.
+
+(** The decision functions themselves: with a shard limit, the answer is "no" as soon as the shard check
+    fails, for every dynamic limit, callback presence and callback answer. *)
+Lemma shard_check_decides_filter : forall shard dyn cb cont f,
+  check_filter_against_limit f shard = false ->
+  check_filter_limits (mk_handle (Some shard) dyn cb cont) f = false.
+Proof. intros. unfold check_filter_limits. simpl. rewrite H. reflexivity. Qed.
+
+Lemma shard_check_decides_values : forall shard dyn cb cont cvs,
+  check_column_values_against_limit cvs shard = false ->
+  check_values_limits (mk_handle (Some shard) dyn cb cont) cvs = false.
+Proof. intros. unfold check_values_limits. simpl. rewrite H. reflexivity. Qed.
+
+Lemma shard_check_not_overridable : forall shard dyn cb cont,
+  (forall f, check_filter_against_limit f shard = false ->
+             check_filter_limits (mk_handle (Some shard) dyn cb cont) f = false)
+  /\ (forall cvs, check_column_values_against_limit cvs shard = false ->
+                 check_values_limits (mk_handle (Some shard) dyn cb cont) cvs = false).
+Proof. intros; split; [apply shard_check_decides_filter|apply shard_check_decides_values]. Qed.
